@@ -610,6 +610,8 @@ def gen_arg(rng, name):
 class ProgGen:
   def __init__(self, rng, managers, allow_global, sync):
     self.rng, self.managers, self.allow_global, self.sync = rng, managers, allow_global, sync
+    self.open = []       # managers of the enclosing scopes
+    self.used = []       # managers scoped so far
 
   def pick(self, focus):
     r = self.rng
@@ -617,13 +619,21 @@ class ProgGen:
       return r.choice(focus)
     return r.choice(self.managers)
 
+  def pick_probe(self, focus):
+    r = self.rng
+    if self.open and r.chance(0.55):
+      return r.choice(self.open)
+    if self.used and r.chance(0.5):
+      return r.choice(self.used)
+    return self.pick(focus)
+
   def prog(self, depth, focus, budget):
     """budget: mutable [remaining nodes]."""
     r = self.rng
     budget[0] -= 1
     if depth <= 0 or budget[0] <= 0:
       return self.leaf(focus)
-    k = r.weighted([(5, 'scope'), (4, 'seq'), (2, 'try'), (2, 'leaf')])
+    k = r.weighted([(6, 'scope'), (4, 'seq'), (2, 'try'), (1, 'leaf')])
     if k == 'leaf':
       return self.leaf(focus)
     if k == 'seq':
@@ -634,13 +644,22 @@ class ProgGen:
     arg = gen_arg(r, m)
     if m == 'dynamic_evaluate' and self.allow_global and r.chance(0.35):
       arg['pt'] = False
-    return ['scope', m, arg, self.prog(depth - 1, focus, budget)]
+    self.open.append(m)
+    self.used.append(m)
+    body = self.prog(depth - 1, focus, budget)
+    self.open.pop()
+    if r.chance(0.5):
+      body = ['seq', ['probe', m], body]
+    out = ['scope', m, arg, body]
+    if r.chance(0.4):
+      out = ['seq', out, ['probe', m]]
+    return out
 
   def leaf(self, focus):
     r = self.rng
     k = r.weighted([(7, 'probe'), (2, 'raise'), (1, 'skip'), (3 if self.sync else 0, 'sync')])
     if k == 'probe':
-      return ['probe', self.pick(focus)]
+      return ['probe', self.pick_probe(focus)]
     return [k]
 
 
@@ -707,16 +726,17 @@ class C17(Prop):
     local = [m for m in DRIVEN if m not in PROCESS_WIDE]
     for _ in range(n_mixed):
       g = ProgGen(rng, DRIVEN, True, False)
-      yield {'threads': [g.prog(rng.randint(1, 6), None, [rng.randint(6, 40)])]}
+      yield {'threads': [g.prog(rng.randint(2, 6), None, [rng.randint(10, 45)])]}
     for _ in range(n_focus):
       focus = rng.sample(DRIVEN, rng.randint(1, 3))
       g = ProgGen(rng, DRIVEN, True, False)
-      yield {'threads': [g.prog(rng.randint(2, 6), focus, [rng.randint(8, 40)])]}
+      yield {'threads': [g.prog(rng.randint(2, 6), focus, [rng.randint(10, 45)])]}
     for _ in range(n_two):
       focus = rng.sample(local, rng.randint(1, 3))
       g = ProgGen(rng, local, False, True)
-      a = g.prog(rng.randint(1, 5), focus, [rng.randint(6, 24)])
-      b = g.prog(rng.randint(1, 5), focus if rng.chance(0.7) else None, [rng.randint(6, 24)])
+      a = g.prog(rng.randint(2, 5), focus, [rng.randint(8, 24)])
+      g = ProgGen(rng, local, False, True)
+      b = g.prog(rng.randint(2, 5), focus if rng.chance(0.7) else None, [rng.randint(8, 24)])
       # make sure there are hand-offs inside scopes
       yield {'threads': [['seq', a, ['sync']], ['seq', ['sync'], b]]}
     if tier == 'thorough':
@@ -823,24 +843,42 @@ class C17(Prop):
   # -- the property itself ------------------------------------------------------------------
   def oracle(self, case, out):
     two = len(case['threads']) > 1
+    # restoration, block by block. A failing inner block also shows in the snapshots of the blocks
+    # around it: report the block whose *own* getter changed (else the first one).
+    failing = []
     for tid, blocks in enumerate(out['blocks']):
       for b in blocks:
-        m = b['mgr']
         if 'after' not in b:
           continue
         diff = sorted(k for k in b['before'] if b['before'][k] != b['after'].get(k))
         if diff:
-          how = 'exception' if str(b.get('exit', '')).startswith('exc') else 'normal'
-          return {'signature': 'not-restored:%s:%s:%s' % (m, how, ','.join(diff)),
-                  'what': 'thread %d: after leaving `with %s(%s)` (%s exit) the getters %s differ: before=%s after=%s'
-                          % (tid, m, json.dumps(b['arg']), how, diff,
-                             {k: b['before'][k] for k in diff}, {k: b['after'][k] for k in diff})}
+          failing.append((0 if b['mgr'] in diff else 1, len(failing), tid, b, diff))
+    if failing:
+      own, _, tid, b, diff = min(failing, key=lambda x: (x[0], x[1]))
+      m = b['mgr']
+      how = 'exception' if str(b.get('exit', '')).startswith('exc') else 'normal'
+      sig = 'not-restored:%s:%s' % (m, how) if own == 0 else 'not-restored-other:%s:%s:%s' % (m, how, ','.join(diff))
+      return {'signature': sig,
+              'what': 'thread %d: after leaving `with %s(%s)` (%s exit) the getters %s differ: before=%s after=%s'
+                      % (tid, m, json.dumps(b['arg']), how, diff,
+                         {k: b['before'][k] for k in diff}, {k: b['after'][k] for k in diff})}
+    for tid, blocks in enumerate(out['blocks']):
+      for b in blocks:
+        m = b['mgr']
         if b.get('entered'):
           exp = spec_inside(m, b['before'][m], b['arg'], b.get('enclosing'))
           if exp is not None and exp[1] != b['inside']:
             return {'signature': 'not-effective:%s' % m,
                     'what': 'thread %d: inside `with %s(%s)` the getter gives %s; documented nesting rule over the '
                             'outer value %s gives %s' % (tid, m, json.dumps(b['arg']), b['inside'], b['before'][m], exp[1])}
+    # a thread that starts while another one is inside scopes sees the same defaults as the first
+    t0 = out['model']['threads'][0]['before']
+    for tid, t in enumerate(out['model']['threads'][1:], 1):
+      diff = sorted(k for k in t0 if t['before'][k] != t0[k])
+      if diff:
+        return {'signature': 'leak-across-threads:' + ','.join(diff),
+                'what': 'thread %d starts (the other thread being inside its scopes) and sees %s instead of the '
+                        'defaults %s' % (tid, {k: t['before'][k] for k in diff}, {k: t0[k] for k in diff})}
     for tid, t in enumerate(out['model']['threads']):
       diff = sorted(k for k in t['before'] if t['before'][k] != t['after'][k])
       if diff:
